@@ -24,7 +24,12 @@ func sharedFieldAppends(f *ssa.Function) []ssa.Instruction {
 		if !ok {
 			continue
 		}
-		ld, ok := stripConv(call.Call.Args[0]).(*ssa.UnOp)
+		base := stripConv(call.Call.Args[0])
+		// append(x.f[:n], …): a reslice of the shared slice - the element lands in the shared array for certain
+		if sl, isSlice := base.(*ssa.Slice); isSlice {
+			base = stripConv(sl.X)
+		}
+		ld, ok := base.(*ssa.UnOp)
 		if !ok || ld.Op != token.MUL {
 			continue
 		}
